@@ -39,6 +39,10 @@ fn any_sfc() -> (OutgoingConnectionFlowController, StreamFlowController) {
     fc.acquired_connection_flow_controller_window = v(acquired);
     fc.highest_requested_connection_flow_control_window = v(hr);
     fc.state = any_state();
+    // the STREAM_DATA_BLOCKED synchroniser may be idle or have a delivery pending
+    if kani::any() {
+        fc.stream_data_blocked_sync.request_delivery(v(msd));
+    }
     (conn, fc)
 }
 
@@ -128,7 +132,7 @@ fn vq_c03_sfc_try_acquire_connection_window() {
     kani::cover!(old.finished, "reach:finished");
 }
 
-//@ harness props=C03 tier=quick level=full timeout=180
+//@ harness props=C03,C12 tier=quick level=full timeout=180
 //@ fn StreamFlowController::finish
 //@ fn StreamFlowController::clear_blocked
 #[kani::proof]
@@ -148,6 +152,14 @@ fn vq_c03_sfc_finish_and_clear() {
         let new = abs(&fc);
         assert!(new.finished && new.msd == old.msd && new.acquired == old.acquired && new.requested == old.requested, "C03/sfc.finish/frame");
         assert!(!fc.is_blocked(), "C03/sfc.finish/not_blocked");
+        // C12: after finish() (reset or end of stream) no STREAM_DATA_BLOCKED frame may follow -- whatever
+        // blocked state the controller was in
+        {
+            use s2n_quic_core::time::timer::Provider as _;
+            use transmission::interest::Provider as _;
+            assert!(!fc.has_transmission_interest(), "C12/sfc.finish/no_stream_data_blocked_pending_after_finish");
+            assert!(!fc.is_armed(), "C12/sfc.finish/no_stream_data_blocked_timer_after_finish");
+        }
     }
     let c_new = abs_conn(&conn);
     assert!(c_new.total == c_old.total && c_new.avail == c_old.avail, "C03/sfc.finish_clear/connection_untouched");
